@@ -14,11 +14,11 @@ VHDL_ASSUME = [
     "numeric_std / std_logic_1164 operator semantics are those transcribed in specs/cohdl_semantics.py (no VHDL tool in the sandbox); counterexamples are replayed against the Python code only",
 ]
 
-C05_MODULES = ["contracts.core_models", "contracts.c09_arith", "contracts.c09_bounded", "contracts.c05_convert", "contracts.c05_format_cast", "contracts.c05_setters", "contracts.c05_join"]
+C05_MODULES = ["contracts.core_models", "contracts.c09_arith", "contracts.c09_bounded", "contracts.c05_convert", "contracts.c05_format_cast", "contracts.c05_setters", "contracts.c05_join", "contracts.c05_castsetter"]
 
 C13_MODULES = ["contracts.core_models", "contracts.c09_bounded", "contracts.c13_types", "contracts.c13_views", "contracts.c13_array", "contracts.c13_refspec"]
 
-C06_MODULES = C05_MODULES + ["contracts.c13_types", "contracts.c13_views", "contracts.c06_names", "contracts.c06_ports", "contracts.c06_stmts", "contracts.c06_literals", "contracts.c02_ops", "contracts.c06_sensitivity", "contracts.c03_refvisit", "contracts.c06_text", "contracts.c06_library"]
+C06_MODULES = C05_MODULES + ["contracts.c13_types", "contracts.c13_views", "contracts.c06_names", "contracts.c06_ports", "contracts.c06_stmts", "contracts.c06_literals", "contracts.c02_ops", "contracts.c06_sensitivity", "contracts.c03_refvisit", "contracts.c06_text", "contracts.c06_library", "contracts.c02_replace"]
 
 C02_MODULES = C05_MODULES + ["contracts.c13_types", "contracts.c13_views", "contracts.c02_ops", "contracts.c02_frontend", "contracts.c02_replace", "contracts.c02_assembler", "contracts.c03_lowering", "contracts.c13_refspec"]
 
@@ -45,7 +45,7 @@ PROPERTIES = {
         ],
     },
     "C03": {
-        "modules": C05_MODULES + ["contracts.c08_temporaries", "contracts.c08_cleanup", "contracts.c03_lowering", "contracts.c03_condselect", "contracts.c04_reset", "contracts.c04_wrappers", "contracts.c02_assembler", "contracts.c13_types", "contracts.c06_stmts", "contracts.c02_frontend", "contracts.c03_decl", "contracts.c03_refvisit", "contracts.c13_refspec", "contracts.c03_out", "contracts.c10_frontend", "contracts.c03_match"],
+        "modules": C05_MODULES + ["contracts.c08_temporaries", "contracts.c08_cleanup", "contracts.c03_lowering", "contracts.c03_condselect", "contracts.c04_reset", "contracts.c04_wrappers", "contracts.c02_assembler", "contracts.c13_types", "contracts.c06_stmts", "contracts.c02_frontend", "contracts.c03_decl", "contracts.c03_refvisit", "contracts.c13_refspec", "contracts.c03_out", "contracts.c10_frontend", "contracts.c03_match", "contracts.c02_replace", "contracts.c03_for"],
         "level": "proof",
         "explanation": "the statement is decided per lowering step, each proved from the real source: (1) the setter replacements of Signal/Variable/Temporary (<<=, .next, ^=, .push, @=, .value) accept exactly the documented target kinds and produce the assignment mode of the operator (C05 setter contracts); (2) IrGenerator._apply_impl lowers an assignment to exactly one SignalAssignment / SignalPush / VariableAssignment per open block according to mode, target kind and context kind (temporaries: immediate in sequential, continuous in concurrent contexts); (3) after an if/else execution continues in exactly the end blocks of both branches (25 x 2 arrangements of how branches end, incl. returns and state transitions), the If node being placed before its branches; (4) ir.Sequential._pushed_resettable_signals gives every pushed root -- also noreset roots and roots pushed only through a slice -- its default at the start of each step (reset_pushed), per event for arbitrary prior sets; (5) the process bodies built by std.sequential execute reset_pushed and then the user step exactly when trigger and step condition hold; (6) cleanup_bool_cast only replaces intermediates whose source is an intermediate, so a bool() taken before a later variable update keeps the old value.",
         "assumptions": COMMON_ASSUME + [
@@ -62,7 +62,7 @@ PROPERTIES = {
         ],
     },
     "C04": {
-        "modules": ["contracts.core_models", "contracts.c04_reset", "contracts.c04_wrappers", "contracts.c04_misc"],
+        "modules": ["contracts.core_models", "contracts.c04_reset", "contracts.c04_wrappers", "contracts.c04_misc", "contracts.c20_memory"],
         "level": "proof",
         "explanation": "reset behaviour is decided at its two implementation points, both proved from the real source: (1) the process bodies std._context._sequential_impl builds (no reset / asynchronous / synchronous): for arbitrary truth values of trigger, reset and step condition the activation performs exactly reset_context followed by every on_reset action when reset is active (asynchronous: whatever the trigger; synchronous: at the trigger, whatever the step condition) and nothing else, otherwise reset_pushed + the user step when trigger and step condition hold; the sensitivity list contains the reset signal exactly for asynchronous resets; (2) ir.Sequential._pushed_resettable_signals expands reset_context into exactly one default assignment per root written or pushed in the context that has a default and is not noreset -- flags and default are those of the ROOT also when the access goes through a slice or view; roots without default or marked noreset get none; all objects are collected before the statements are rewritten (event streams enumerated, per-event contract for arbitrary prior sets).",
         "assumptions": COMMON_ASSUME + [
